@@ -197,6 +197,21 @@ def exec2 (toks : List String) : String :=
       | [] => none).getD "bad-op"
   | "pi" :: i :: n :: _ =>
     (do pure (showTerm (Enc.pi (← i.toNat?) (← n.toNat?)))).getD "bad-op"
+  | "errmsg" :: "term" :: e :: _ =>
+    (match e with
+     | "NotVar" => some (showCps (Display.termErrorMsg .NotVar))
+     | "NotAbs" => some (showCps (Display.termErrorMsg .NotAbs))
+     | "NotApp" => some (showCps (Display.termErrorMsg .NotApp))
+     | _ => none).getD "bad-op"
+  | "errmsg" :: "parse" :: "IC" :: i :: c :: _ =>
+    (do pure (showCps (Display.parseErrorMsg (.InvalidCharacter (← i.toNat?) (← c.toNat?))))).getD "bad-op"
+  | "errmsg" :: "parse" :: "IE" :: _ => showCps (Display.parseErrorMsg .InvalidExpression)
+  | "errmsg" :: "parse" :: "EE" :: _ => showCps (Display.parseErrorMsg .EmptyExpression)
+  | "ordname" :: o :: _ =>
+    (match o with
+     | "NOR" => some Order.NOR | "CBN" => some Order.CBN | "HSP" => some Order.HSP | "HNO" => some Order.HNO
+     | "APP" => some Order.APP | "CBV" => some Order.CBV | "HAP" => some Order.HAP | _ => none).map
+      (fun o => showCps (Display.orderName o)) |>.getD "bad-op"
   | _ => "bad-op"
 
 end Drv2
